@@ -1,6 +1,7 @@
 import Driver.ProgJson
 import Driver.TransKotlin
 import Heph.Model.TransScala
+import Heph.Spec.TransScalaSem
 /-! ops of the Scala translator model (same requests and answers as the `trans.kotlin.*` ops):
  * `trans.scala` `{program: <export>, package: str|null, history?: [<export>…], reset?: bool}` → text of `program`
    printed by a translator object that has already translated the programs of `history` (and, with
@@ -9,7 +10,9 @@ import Heph.Model.TransScala
  * `trans.scala.inventory` `{program}` → `[[tag, name]…]`, the declaration inventory computed from the IR
  * `trans.scala.visit` `{program, ident?, is_unit?, is_lambda?, _cast_integers?}` → texts of the top-level
    declarations visited in turn from that state, and the state afterwards
- * `trans.scala.state` (same request as `trans.scala`) → the state after translating history and program -/
+ * `trans.scala.state` (same request as `trans.scala`) → the state after translating history and program
+ * `trans.scala.sem` `{program}` → `{"pieces": [[tag, name|null, text]…], "condok": bool}`: the non-layout pieces the
+   program calls for (`semProgram`, IR only) and the hypothesis `condOK` of the text-level theorems -/
 open Lean Heph Heph.TransScala
 open Heph.TransKotlin (St Obj initObj programClasses flatten)
 open Driver.TransKotlin (tagJson pieceJson getPackage getHistory getProgram stJson)
@@ -44,6 +47,10 @@ def handle : Handler := fun op j =>
   | "trans.scala.inventory" => some (do
       let p ← getProgram j
       pure (res (Json.arr ((inventory p).toArray.map fun t => Json.arr (tagJson t).toArray))))
+  | "trans.scala.sem" => some (do
+      let p ← getProgram j
+      pure (res (Json.mkObj [("pieces", Json.arr ((semProgram p).toArray.map pieceJson)),
+                             ("condok", Json.bool (condOK p))])))
   | _ => none
 
 end Driver.TransScala
